@@ -268,8 +268,10 @@ def judgeHQ (h : NHist F64) (obsd : List (F64 × XR)) : Option String :=
   -- consistent histograms only: Count = Σ buckets, or Count ≥ Σ buckets when Sum is NaN (NaN observations)
   if !(total = N || (sumNaN && total ≤ N)) then none else
   let ladder := sortPairs ((obsd.filter fun (q, _) => isFin (toXR q) && decide (0 ≤ q.toRat ∧ q.toRat ≤ 1)).map fun (q, r) => (q.toRat, r))
-  -- with Sum = NaN the code takes a separate path (forward walk + NaN-observation detection): own signature
-  let tag := if sumNaN then "hq-nansum" else if onlyInfBucket h then "hq-only-inf-bucket" else "hq"
+  -- with Sum = NaN the code takes a separate path (forward walk + NaN-observation detection): own signature.
+  -- A histogram whose only bucket is (-Inf,+Inf] keeps the only-inf-bucket signature also when Sum is NaN:
+  -- no bucket can remain after the rank bucket there, so what is flagged is F-C32-3, not F-C32-1.
+  let tag := if onlyInfBucket h then "hq-only-inf-bucket" else if sumNaN then "hq-nansum" else "hq"
   match checkMono tag sumNaN ladder with
   | some v => some v
   | none =>
@@ -293,6 +295,13 @@ def judgeHQ (h : NHist F64) (obsd : List (F64 × XR)) : Option String :=
           let lo := (adjRange h bl).1
           let hi := (adjRange h bh).2
           -- NaN observations count as +Inf: beyond the buckets the result is NaN (handled above) or the top bound
+          -- — of the highest populated bucket or of the layout (a custom layout ends in a (b,+Inf] bucket, whose
+          -- admissible result is b also when it is empty: the NaN observations are not in any bucket)
+          let hi := if sumNaN && decide (rank + delta > total) then
+              (match h.fwd.getLast? with
+               | some bl => let t := (adjRange h bl).2; if xlt hi t then t else hi
+               | none => hi)
+            else hi
           if leSlack lo r && leSlack r hi then none
           else some s!"{tag}-outside-rank-bucket q={showX (.fin q)} r={showX r} lo={showX lo} hi={showX hi}"
         | _, _ => none
